@@ -301,26 +301,9 @@ func (a *aofRun) crashInConc(phaseStart map[string]string, groups []concGroup, r
 		return ""
 	}
 	inGroup := map[string]bool{}
-	problem := ""
 	for _, g := range groups {
-		same := func(ref map[string]string) bool {
-			for _, k := range g.keys {
-				if val(got, k) != val(ref, k) {
-					return false
-				}
-			}
-			return true
-		}
 		for _, k := range g.keys {
 			inGroup[k] = true
-		}
-		switch {
-		case same(dead):
-		case same(before) && !g.acked:
-		case g.acked:
-			problem = fmt.Sprintf("keys %v of a command acknowledged before the crash are not restored as the server held them", g.keys)
-		default:
-			problem = fmt.Sprintf("keys %v of a command in flight at the crash are restored neither as before nor as after it", g.keys)
 		}
 	}
 	keys := map[string]bool{}
@@ -330,17 +313,49 @@ func (a *aofRun) crashInConc(phaseStart map[string]string, groups []concGroup, r
 	for k := range before {
 		keys[k] = true
 	}
-	for k := range keys {
-		if !inGroup[k] && val(got, k) != val(before, k) && problem == "" {
-			problem = fmt.Sprintf("key %s, which no command of the phase names, changed: %q -> %q", k, val(before, k), val(got, k))
+	// the rule, parameterised by the equality used for values
+	check := func(eq func(x, y string) bool) string {
+		for _, g := range groups {
+			same := func(ref map[string]string) bool {
+				for _, k := range g.keys {
+					if !eq(val(got, k), val(ref, k)) {
+						return false
+					}
+				}
+				return true
+			}
+			switch {
+			case same(dead):
+			case same(before) && !g.acked:
+			case g.acked:
+				return fmt.Sprintf("keys %v of a command acknowledged before the crash are not restored as the server held them", g.keys)
+			default:
+				return fmt.Sprintf("keys %v of a command in flight at the crash are restored neither as before nor as after it", g.keys)
+			}
 		}
+		for _, k := range sortedKeys(keys) {
+			if !inGroup[k] && !eq(val(got, k), val(before, k)) {
+				return fmt.Sprintf("key %s, which no command of the phase names, changed: %q -> %q", k, val(before, k), val(got, k))
+			}
+		}
+		return ""
 	}
+	problem := check(func(x, y string) bool { return x == y })
 	if problem != "" {
 		sig := "concurrent-writer/crash"
-		if site != "" {
+		switch {
+		case check(func(x, y string) bool { return jsonProjection(x) == jsonProjection(y) }) == "":
+			// the preamble a rewrite wrote cannot represent every value type (recorded finding): up to that
+			// projection the restore is what it has to be
+			sig = "retyped-by-preamble"
+		case a.rewriteCrashSite != "":
+			// an EARLIER rewrite of this history was interrupted inside the replacement of the two files and none has
+			// completed since: what is on disk is still what that crash left (recorded findings, by site)
+			sig = "rewrite-crash@" + a.rewriteCrashSite
+		case site != "":
 			sig = "rewrite-crash@" + site
 		}
-		a.fail(sig, fmt.Sprintf("kill in the middle of REWRITEAOF with concurrent writers (rewrite finished: %v, rewrite task at %q): %s; restored vs live at the crash: %s", rewriteDone, site, problem, DiffData(got, StripMap(dead, now), "restored", "live", 5)))
+		a.fail(sig, fmt.Sprintf("kill in the middle of REWRITEAOF with concurrent writers (rewrite finished: %v, rewrite task at %q, earlier interrupted rewrite: %q): %s; restored vs live at the crash: %s", rewriteDone, site, a.rewriteCrashSite, problem, DiffData(got, StripMap(dead, now), "restored", "live", 5)))
 		return false
 	}
 	a.states = []map[string]string{a.dump()}
